@@ -91,8 +91,10 @@ func evalProgram(vm *r.VM, program *syntax.Program, varInputs r.ElementMap) (r.E
 }
 
 func evalExecBlock(vm *r.VM, execBlock *syntax.ExecBlock, params []r.Element) (r.Element, error) {
-	vm.BeginScope()
-	defer vm.EndScope()
+	// end exactly the scope that begins here: when an inner call fails, the top
+	// call frame (thus "current scope") may belong to another module by then
+	scope := vm.BeginScope()
+	defer scope.EndScope()
 
 	blockModule := vm.GetCurrentModule()
 	// depth of call stack when entering this block - when an exception is intercepted,
@@ -159,8 +161,10 @@ func evalStmtBlock(vm *r.VM, stmtBlock *syntax.StmtBlock) (r.Element, error) {
 
 // evalPureStmtBlock - evaluate statement block without classDef/funcDef/import statements
 func evalPureStmtBlock(vm *r.VM, stmtBlock *syntax.StmtBlock) (r.Element, error) {
-	vm.BeginScope()
-	defer vm.EndScope()
+	// end exactly the scope that begins here: when an inner call fails, the top
+	// call frame (thus "current scope") may belong to another module by then
+	scope := vm.BeginScope()
+	defer scope.EndScope()
 
 	var rtnValue r.Element
 	var err error
@@ -592,8 +596,10 @@ func evalBranchStmt(vm *r.VM, node *syntax.BranchStmt) error {
 }
 
 func evalIterateStmt(vm *r.VM, node *syntax.IterateStmt) error {
-	vm.BeginScope()
-	defer vm.EndScope()
+	// end exactly the scope that begins here: when an inner call fails, the top
+	// call frame (thus "current scope") may belong to another module by then
+	scope := vm.BeginScope()
+	defer scope.EndScope()
 
 	// pre-defined key, value variable name
 	var keySlot, valueSlot *r.IDName
